@@ -12,14 +12,18 @@ EXTENDS Vec, SequencesExt, FiniteSetsExt
 VARIABLES v_lvl, v_idx
 
 Payload == S2B("<a href=\"x\">&'b'</a>;/*{}%+ \\")
+(* values with ONE kind of significant character, and with none: a short cut in an escaper shows on these *)
+Payload1 == S2B("O'Reilly x")
+Payload2 == S2B("say \"hi\"")
+Payload3 == S2B("safe123")
 Ctx == ("x" :> Str(Payload)) @@ ("sh" :> Safe(Str(Payload), {"html"})) @@ ("sj" :> Safe(Str(Payload), {"js"}))
-       @@ ("n" :> IntV(5)) @@ ("e" :> Str(<<>>)) @@ ("st" :> [t |-> "gostr", s |-> Payload])   \* st: a Go fmt.Stringer
+       @@ ("n" :> IntV(5)) @@ ("e" :> Str(<<>>)) @@ ("q1" :> Str(Payload1)) @@ ("q2" :> Str(Payload2)) @@ ("q3" :> Str(Payload3)) @@ ("st" :> [t |-> "gostr", s |-> Payload])   \* st: a Go fmt.Stringer
 
 Names == {"a.html", "a.js", "a.css", "a.txt", "a", "a.foo", "a.html.twig", "a.js.twig", "d.js/a", "a.url", "a.html_attr", "a.HTML", "inline",
           "a.txt.html", "a.min.js", "a.js.html", "a.html.txt.twig", "v1.2/a.css", "a.b.c.css.twig", ".js", "a."}
 Forms == {"plain", "escape", "escape-js", "escape-attr", "escape-css", "escape-url", "raw", "safe-html", "safe-js", "filtered",
           "concat", "literal", "number", "empty", "escape-raw", "tern", "stringer", "stringer-escape", "stringer-js",
-          "tern-raw-else", "tern-raw-then", "tern-esc-else", "tern-paren-raw", "tern-chain-raw"}
+          "tern-raw-else", "tern-raw-then", "tern-esc-else", "tern-paren-raw", "tern-chain-raw", "plain-q1", "plain-q2", "plain-q3", "attr-q1"}
 Places == {"top", "if", "else", "for", "block", "inherited", "included", "embedded", "override", "capture", "section", "macro", "forelse"}
 
 PrintOf(form) ==
@@ -39,6 +43,8 @@ PrintOf(form) ==
     [] form = "empty" -> PrintS(NameE("e"))
     [] form = "escape-raw" -> PrintS(Pipe(Pipe(NameE("x"), "escape", <<>>), "raw", <<>>))
     [] form = "stringer" -> PrintS(NameE("st"))
+    [] form = "plain-q1" -> PrintS(NameE("q1")) [] form = "plain-q2" -> PrintS(NameE("q2")) [] form = "plain-q3" -> PrintS(NameE("q3"))
+    [] form = "attr-q1" -> PrintS(Pipe(NameE("q1"), "escape", <<StrE("html_attr")>>))
     (* conditionals with an explicit raw/escape on ONE branch; the other branch is selected *)
     [] form = "tern-raw-else" -> PrintS(Tern(BoolE(FALSE), Pipe(NameE("x"), "raw", <<>>), NameE("x")))
     [] form = "tern-raw-then" -> PrintS(Tern(BoolE(TRUE), NameE("x"), Pipe(NameE("x"), "raw", <<>>)))
@@ -68,7 +74,9 @@ Seg(form, ct) ==
     [] form = "empty" -> <<>>
     [] form = "escape-raw" -> E("html", Payload)
     [] form = "stringer" -> E(ct, Payload)
-    [] form \in {"tern-raw-else", "tern-raw-then", "tern-esc-else", "tern-paren-raw", "tern-chain-raw"} -> E(ct, Payload)
+    [] form = "plain-q1" -> E(ct, Payload1) [] form = "plain-q2" -> E(ct, Payload2) [] form = "plain-q3" -> E(ct, Payload3)
+    [] form = "attr-q1" -> E("html_attr", Payload1)
+    [] form \in {"tern-raw-else", "tern-raw-then", "tern-esc-else", "tern-paren-raw", "tern-chain-raw", "plain-q1", "plain-q2", "plain-q3", "attr-q1"} -> E(ct, Payload)
     [] form = "stringer-escape" -> E("html", Payload)
     [] form = "stringer-js" -> E("js", Payload)
     [] OTHER -> E(ct, Payload)
@@ -122,11 +130,21 @@ Cur == Cases[v_idx]
 Tpls == Program(Cur.name, Cur.form, Cur.place)
 Ref == ExecuteTwig(Tpls, EntryOf(Cur.name, Cur.place), Ctx)
 Expected == Decor(Cur.place, Seg(Cur.form, RequiredCt(Cur.name)))
+(* the symbolic escaped segments expanded with the reference escapers of Escape.tla (payloads are ASCII: bytes = code points);
+   css in the format stick pins (4+ hex digits, no terminator: the known finding of C13 is not C12's subject) *)
+FnOfCode(c) == CASE c = 16 -> "html" [] c = 17 -> "html_attr" [] c = 18 -> "js" [] c = 19 -> "css!4" [] OTHER -> "url"
+RECURSIVE FirstTwo(_, _)
+FirstTwo(bs, q) == IF bs[q] = 2 THEN q ELSE FirstTwo(bs, q + 1)
+RECURSIVE Concrete(_)
+Concrete(bs) == IF bs = <<>> THEN <<>>
+                ELSE IF bs[1] = 1 THEN LET j == FirstTwo(bs, 3) IN
+                     RefEscSeq(FnOfCode(bs[2]), SubSeq(bs, 3, j - 1)) \o Concrete(SubSeq(bs, j + 1, Len(bs)))
+                ELSE <<bs[1]>> \o Concrete(Tail(bs))
 Vecc == LET S == Ref IN
   [id |-> "C12-" \o ToString(v_idx), fam |-> Cur.place, k |-> "render", env |-> "twig", tpls |-> Tpls,
    entry |-> EntryOf(Cur.name, Cur.place), ctx |-> Ctx, inline |-> (Cur.name = "inline"),
    x |-> [name |-> Cur.name, form |-> Cur.form],
-   exp |-> [status |-> S.status, out |-> MainOut(S), log |-> <<>>]]
+   exp |-> [status |-> S.status, out |-> MainOut(S), outc |-> Concrete(MainOut(S)), log |-> <<>>]]
 Out == v_lvl < 2 \/ Emit(Vecc)
 
 (* every printed value is escaped for its template's content type, exactly once; raw and matching safe values pass *)
